@@ -1,23 +1,23 @@
 CONSTANTS
   Mode = "c15"
-  NCols = 3
+  NCols = 4
   Window = TRUE
-  Edge = 2
-  NRows = 2
+  Edge = 3
+  NRows = 1
   NT = 1
   VAbs = 1
   Exist = TRUE
-  Depth = 5
+  Depth = 6
   MaxD = 3
-  MaxArity = 2
-  MaxStack = 2
+  MaxArity = 1
+  MaxStack = 1
   MaxBatch = 1
   MaxSeq = 1
-  InitAll = 2
+  InitAll = 1
   Warm = 0
-  ClassSet = {"push", "apply", "unary"}
+  ClassSet = {"push", "unary", "rowwrite", "reset"}
   LeafKinds = {"row"}
-  Script = "none"
+  Script = "store"
 INIT Init
 NEXT Next
 INVARIANT Emit
